@@ -211,6 +211,9 @@ def run_case(case):
         ns_real = int(rng.integers(100_000, 320_000))
         delta = int(rng.choice([-3, -2, -1, 1, 2, 3]))
         fs = float(rng.choice([30000.0, 30000.390639481, 2500.0]))
+        ch_rate = None
+        if case["form"] == "cbin":      # (metadata rate, rate written into the compression header), cycling over the cases of a run
+            fs, ch_rate = [(30000.390639481, 30000.0), (30000.0, 30000.0), (2500.0325532900833, 2500.0), (30000.390639481, 30000.390639481)][(case["seed"] // 2) % 4]
         rec = G.make(rng, kind=kind, sites=G.draw_sites(rng, kind, n, "dense"), ns=ns_real, fs=fs, claim_ns=ns_real + delta, content="random")
         b = G.write(rec, d)
         form = case["form"]
@@ -218,7 +221,10 @@ def run_case(case):
         try:
             if form == "cbin":
                 import mtscomp
-                mtscomp.compress(b, out=b.with_suffix(".cbin"), outmeta=b.with_suffix(".ch"), sample_rate=rec.fs, n_channels=rec.nc, dtype=np.int16,
+                # the compression header carries its own sampling rate: the calibrated one of the metadata, or the nominal one (compressed with the
+                # stand-alone tool); the recording's rate is the metadata's
+                label += f" (.ch sample_rate {ch_rate})"
+                mtscomp.compress(b, out=b.with_suffix(".cbin"), outmeta=b.with_suffix(".ch"), sample_rate=ch_rate, n_channels=rec.nc, dtype=np.int16,
                                  chunk_duration=1.0, check_after_compress=False, n_threads=2)
                 b.unlink()
                 b = b.with_suffix(".cbin")
